@@ -150,6 +150,10 @@ RunAvgFrom(ints, i, m) == IF i > Len(ints) THEN m
                           ELSE RunAvgFrom(ints, i + 1, RoundDiv(m * (i - 1) + ints[i], i))
 RunAvg(ints) == RunAvgFrom(ints, 1, 0)
 
+\* an AVG over a column that holds a NULL in some row of the input: the engine refuses the statement (a named deviation from
+\* SQL, which averages the other values); either answer is accepted, a NULL counted as a number is not
+AvgOverNull(f, rows, q) == \E i \in 1..Len(q.list) : q.list[i].k = "avg" /\ \E r \in 1..Len(rows) : rows[r][Idx(f, q.list[i].ref)].t = "n"
+
 \* is `out` (a result row) right for the group with members ms?  running = TRUE: "right" with AVG read as the
 \* running rounded mean, which recognises the known finding and nothing else
 AggRowOKm(f, ms, q, out, running) ==
@@ -159,7 +163,8 @@ AggRowOKm(f, ms, q, out, running) ==
       [] it.k = "count" -> out[i] = IntV(Len(ms))
       [] it.k = "countcol" -> out[i] = IntV(Len(NonNull(ColVals(f, ms, it.ref))))
       [] it.k = "avg" -> /\ out[i].t = "i"
-                         /\ LET ints == [j \in 1..Len(ms) |-> ms[j][Idx(f, it.ref)].v] IN
+                         /\ LET nn == NonNull(ColVals(f, ms, it.ref))
+                                ints == [j \in 1..Len(nn) |-> nn[j].v] IN
                             IF running THEN out[i].v = RunAvg(ints) ELSE AvgOK(out[i].v, ints)
       [] it.k = "cmp" -> TRUE
 
@@ -220,6 +225,7 @@ ResultOKm(db, q, res, running) ==
       of == OutFields(f, q)
   IN IF HasAgg(q) \/ q.group # <<>> THEN      \* GROUP BY without an aggregate still forms groups
         IF GroupBad(q) THEN res.err ELSE
+        IF AvgOverNull(f, kept, q) /\ res.err THEN TRUE ELSE
         /\ ~res.err
         \* the aggregate rows (one for the whole input, or one per group - in no promised order) are what OFFSET / LIMIT cut
         /\ IF q.group = <<>> THEN
